@@ -208,7 +208,7 @@ pub fn explore_scenario(
             continue;
         }
         let ct = canon(&res.trace, &res.raw_ids);
-        let h = hash_trace(&ct);
+        let h = if scn.has_tag("feature_neutral") { hash_trace(&feature_neutral(&ct)) } else { hash_trace(&ct) };
         let chosen: Vec<u16> = res.steps.iter().map(|s| s.chosen as u16).collect();
         chosen.hash(&mut tree);
         h.hash(&mut tree);
@@ -419,4 +419,21 @@ pub fn compare_variant(base: &Collected, var: &Collected) -> Option<(Vec<u16>, S
         }
     }
     None
+}
+
+/// The part of a trace that must not depend on which optional rsactor features are compiled in.
+pub fn feature_neutral(t: &[Ev]) -> Vec<Ev> {
+    let mut hidden: HashSet<u32> = HashSet::new();
+    t.iter()
+        .filter(|e| match &e.k {
+            EvK::Log { .. } | EvK::DlCount { .. } | EvK::Graph { .. } | EvK::Quiet { .. } => false,
+            EvK::OpStart { op, k: OpK::Metrics, .. } => {
+                hidden.insert(*op);
+                false
+            }
+            EvK::OpEnd { op, .. } => !hidden.contains(op),
+            _ => true,
+        })
+        .cloned()
+        .collect()
 }
